@@ -263,6 +263,7 @@ static void c10impl(const Trace& t, const Analysis& A, Verdict& V, std::vector<M
 			}
 			if (e.a) m.v.push_back(m.pend);
 		}
+		if (e.kind == EV_NOTE && e.method == NOTE_HELD && !(e.a && e.b)) V.add(10, i, F("a %s obtained before the operation does not show the plan as it is after the operation (a plan handle is a view of the machine's plan)", !e.a ? "read-only plan (CPlan)" : "Plan"));
 		if (e.kind == EV_NOTE && e.method == NOTE_ITER && !e.a) V.add(10, i, F("iterating while removing did not visit exactly the tasks of the plan in order (visited %u)", e.b));
 		if (e.kind == EV_END && w && w->type == WT_OP) {
 			if (e.method == OP_PLAN_CLEAR) m.v.clear();
@@ -425,6 +426,21 @@ void c16(const Trace& t, const Analysis& A, Verdict& V) {
 			continue;
 		}
 		if (!attached[in]) continue;
+		// verbose logging records deliveries to states that define no callback -- also the plan outcome delivered to the (empty) root of a headless
+		// machine. Such an outcome is invisible to callbacks; the analysis infers it when the plan empties without its last task's request being evaluated.
+		if (f.verbose && !f.head && e.kind == EV_BEGIN && (e.method == OP_UPDATE || e.method == OP_REACT) && A.ann[i].win >= 0) {
+			const Win& w = A.wins[A.ann[i].win];
+			if (w.complete && !w.aborted && w.plan.present && w.plan.outcome == 3) {
+				bool toggled = false, found = false;
+				for (uint32_t k = w.b; k < w.e; ++k) {
+					const Ev& x = t.ev[k];
+					if (x.inst != e.inst) continue;
+					if (x.kind == EV_ACT && x.method == ACT_LOGGER) toggled = true;
+					if (k >= w.phaseEnd && k <= w.plan.postEv && x.kind == EV_LOG && x.method == LOG_METHOD && x.a == NOID && (x.b == M_PLAN_FAILED || x.b == M_PLAN_SUCCEEDED)) found = true;
+				}
+				if (!toggled && !found) V.add(16, w.plan.postEv, "verbose logging: the plan outcome delivered to the root of this headless machine (the plan was emptied without its last task firing) produced no method record");
+			}
+		}
 		// every action is followed immediately by its record
 		if (e.kind == EV_ACT) {
 			if (e.method == ACT_REQUEST && !nextIs(i, e.inst, LOG_TRANSITION, e.state, e.a, true)) V.add(16, i, F("changeTo/changeWith by s%d to s%u produced no transition record with the caller as origin", sidOf(e.state), e.a));
